@@ -129,7 +129,9 @@ func H_c03_message_sizes() {
 	}
 	in = append(in, num...)
 	if field == "File: " {
-		in = append(in, " a.txt\r\nBody: 1"...)
+		// with a name, without any separator, or with a TAB instead of the blank
+		in = append(in, [...]string{" a.txt", "", "\ta.txt", " "}[symInt(0, 3)]...)
+		in = append(in, "\r\nBody: 1"...)
 	}
 	in = append(in, "\r\n\r\nxyz\r\n"...)
 	symLimitAlloc(1 << 16)
